@@ -375,8 +375,8 @@ def getitem(it, base, idx, frame, node):
 def arr_slice(it, a: Arr, s: slice):
     if s.step is not None:
         raise Unsupported("strided slice")
-    lo = 0 if s.lower is None else s.lower
-    hi = a.n if s.upper is None else s.upper
+    lo = 0 if s.start is None else s.start
+    hi = a.n if s.stop is None else s.stop
     if isinstance(lo, int) and lo < 0:
         lo = ops.scalar_bin("+", a.n, lo)
     if isinstance(hi, int) and hi < 0:
